@@ -51,14 +51,23 @@ def run_one(s):
                 cond = tp.conditions.DataCondition(model, loader, norm=("inf" if a["norm"] == 0 else a["norm"]),
                                                    root=a["root"], use_full_dataset=a["full"])
                 n = 1 if a["full"] else len(loader) + 2
-                vals = []
+                # single-iteration mode: a SECOND condition on the same loader is evaluated in between; each walks the batches on its own
+                other = None if a["full"] else tp.conditions.DataCondition(model, loader, norm=("inf" if a["norm"] == 0 else a["norm"]),
+                                                                          root=a["root"], use_full_dataset=False)
+                vals, vals_b = [], []
                 for k in range(n):
                     v = watched(lambda: cond(device="cpu"))
                     if v[0] != "ok":
                         return {"error": list(v)}
                     v = float(v[1])
                     vals.append(rat(v ** a["root"]))
+                    if other is not None:
+                        w = watched(lambda: other(device="cpu"))
+                        if w[0] != "ok":
+                            return {"error": list(w)}
+                        vals_b.append(rat(float(w[1]) ** a["root"]))
                 a["obs"] = vals
+                a["obs_b"] = vals_b
                 a["cond"] = cond
             tr["agg"] = s["agg"]
             # history: the batch size of the data set is changed AFTER the conditions were built (the data set
@@ -88,11 +97,18 @@ def run_one(s):
         trunk = torch.arange(Nt, dtype=torch.float64).reshape(Nt, 1)
     else:
         trunk = out.clone()
-    r = watched(lambda: tp.utils.DeepONetDataLoader(branch, trunk, out, F, T, U, s["bb"], s["tb"],
-                                                    shuffle_branch=s["shufB"], shuffle_trunk=s["shufT"]))
+    keep = [branch.clone(), trunk.clone(), out.clone()]
+
+    def mk():
+        first = tp.utils.DeepONetDataLoader(branch, trunk, out, F, T, U, s["bb"], s["tb"], shuffle_branch=s["shufB"], shuffle_trunk=s["shufT"])
+        # a second loader built from the SAME user tensors (e.g. a validation loader on the same grid) before the first is used
+        tp.utils.DeepONetDataLoader(branch, trunk, out, F, T, U, s["bb"], s["tb"], shuffle_branch=s["shufB"], shuffle_trunk=s["shufT"])
+        return first
+    r = watched(mk)
     if r[0] != "ok":
         return {"error": list(r)}
     loader = r[1]
+    tr["user_same"] = [bool(torch.equal(a_, b_)) for a_, b_ in zip(keep, [branch, trunk, out])]
 
     def it():
         res = []
